@@ -5,6 +5,9 @@ VERIF = os.path.dirname(os.path.dirname(os.path.abspath(__file__)))
 props = {json.loads(l)["id"]: json.loads(l) for l in open(os.path.join(VERIF, "properties.jsonl"))}
 
 CHECKS = {
+ "C10": dict(cat="exploration", technique="structure-aware fuzzing driven by proptest: honest answers and unsolicited honest-format messages of every union variant with fixed-size fields overwritten in place by boundary values (field offsets found by walking the molecule readers), vector-level mutations, recomputed commitments, truncations / bit flips / random bytes; panic oracle (catch_unwind, overflow checks on) around every handler call",
+   text="Generated worlds (Eaglesong or Dummy PoW) are driven into a peer-state class with a chosen kind of request in flight; then 1..4 hostile inputs on the light-client, filter, sync and relay protocols, each followed by all timers, then honest traffic and a restart. No handler call may panic except the documented long-fork abort.",
+   note="Fixed by this check: D27 (total difficulty overflow), D28 (BlockFilterHashes arithmetic / slices), D29 (MMR library arithmetic on hostile digests), D30 (last-n range check).", ref="6/C10"),
  "C17": dict(cat="exploration", technique="schedule-controlled concurrency testing: two real threads, the harness parks operation A before each of its storage writes in turn (write hook in pause mode) and runs operation B meanwhile; differential oracle against both serial orders on identical generated worlds, then model-based convergence check; progress watchdog for deadlocks",
    text="Generated mid-sync worlds with requests in flight x ordered pairs (A, B) of operations that run on different threads in the client (set_scripts on an RPC thread; BlockFilters / BlockFilterHashes / CheckPoints on the filter protocol; SendBlock on the sync protocol; SendLastStateProof with or without rollback and SendBlocksProof on the light-client protocol; timers) x every write boundary k of A. The final store and in-memory matched blocks must equal the serial run A;B or B;A; if they equal neither, the script set must be a serial one and the sync must still converge to the reference index. No pair may stop making progress for 30 s.",
    note="Reader snapshot isolation (get_cells / get_cells_capacity vs a concurrent writer) is not decided: it needs read-side pause points, see DESIGN.md.", ref="6/C17"),
